@@ -535,7 +535,7 @@ class World:
     def op_stale(self, op: dict[str, Any]) -> str:
         """Operations on a stale handle (receiver of an earlier replace) that must not disturb the attached world."""
         n = self.handles.get(op["h"])
-        if n is None or not self.is_retired(n):
+        if n is None or not self.is_retired(n) or not n.detached:
             raise SkipOp("no stale handle")
         self.before()
         try:
@@ -821,8 +821,15 @@ class Gen:
             out.append(h)
         return out
 
+    def clean(self, o: Any) -> bool:
+        """No stale (retired) node inside: attaching such a holder would revive a shallow copy that shares its
+        children with its replacement (one object at two positions)."""
+        return not any(self.w.is_retired(x) for x in walk(o))
+
     def usable_child(self, h: str) -> bool:
         o = self.w.handles[h]
+        if not self.clean(o):
+            return False
         if o.detached:
             return self.w.attachable(o)
         return o.is_attached_root
@@ -938,7 +945,7 @@ class Gen:
         return {"op": "drop", "h": self.r("drop").choice(names)} if names else None
 
     def g_attach(self) -> dict[str, Any] | None:
-        ref = self.pick_ref(lambda o: o.detached and self.w.is_free(o) and self.w.attachable(o), root_bias=0.9)
+        ref = self.pick_ref(lambda o: o.detached and self.w.is_free(o) and self.w.attachable(o) and self.clean(o), root_bias=0.9)
         return None if ref is None else {"op": "attach", "n": ref}
 
     def g_detach(self) -> dict[str, Any] | None:
